@@ -3,6 +3,9 @@
 import re, json, subprocess, glob, sys
 S="/root/.rustup/toolchains/nightly-x86_64-unknown-linux-gnu/lib/rustlib/src/rust/library/stdarch/crates/core_arch/src"
 used=subprocess.run(r"grep -rhoE '\b_mm(256)?_[a-z0-9_]+' /repo/src --include=sse4.rs --include=avx2.rs --include=simd_utils.rs | sort -u", shell=True, capture_output=True, text=True).stdout.split()
+import re as _re
+model=open('/verif/kh/src/x86_model.rs').read()
+used=sorted(set(used) | set('_'+n for n in _re.findall(r"^pub fn (mm(?:256)?_\w+)", model, _re.M)))
 src=""
 for f in glob.glob(S+"/x86/*.rs")+glob.glob(S+"/x86_64/*.rs"):
     src+=open(f).read()
